@@ -541,6 +541,159 @@ def check_snr_presentations(chk, lab, m, spec, kappa_of):
     ref.clear()
 
 
+def obj_digest(m):
+    out = [type(m).__name__]
+    for k in sorted(vars(m)):
+        v = vars(m)[k]
+        if isinstance(v, np.ndarray):
+            out.append((k, str(v.dtype), v.shape, v.tobytes()))
+        else:
+            out.append((k, type(v).__name__, repr(v)))
+    return tuple(out)
+
+
+def check_error_paths_and_falsy(chk, lab, kind, M, hist, spec):
+    """(1) a rejected call leaves the object exactly as it was and later results unchanged;
+    (4) falsy-but-valid arguments (0 dB as 0 / 0.0 / -0.0 / arrays of zeros, packet length 1,
+    packet_length None vs omitted) are ordinary values; name/repr are pure observers"""
+    base = lab.split("_")[0]
+    m = build(kind, M, hist)
+    L = 50
+    vals = np.array([-10.0, 0.0, 7.5, 20.0])
+    ref = {fn: call_rate(m, fn, vals.copy(), L) for fn in RATE_FNS}
+    before = obj_digest(m)
+    bad_calls = [(fn, bad, L) for fn in RATE_FNS for bad in ("x", None, [1.0, 2.0])]
+    bad_calls += [("PER", vals.copy(), badL) for badL in ("x", None, [2])] + [("SE", vals.copy(), "x")]
+    for fn, snr, pl in bad_calls:
+        chk.count("eval_error_path_calls")
+        case = dict(spec, what="error_path", fn=fn, snr=repr(snr)[:40], packet_length=repr(pl))
+        try:
+            r = call_rate(m, fn, snr, pl)
+        except Exception:  # noqa
+            r = None
+        else:
+            if isinstance(pl, list):
+                r = None        # (1-BER)**[2] broadcasts legitimately: not an invalid call after all
+            else:
+                chk.fail(("error_path", base, "invalid_argument_accepted"), case, observed=r, expected="an exception")
+        if obj_digest(m) != before:
+            chk.fail(("error_path", base, "object_changed_by_failed_call"), case,
+                     observed=[e for e in obj_digest(m) if e not in before][:2], expected="unchanged object")
+            return
+        repr(m), m.name, m.M, m.K
+    for fn in RATE_FNS:
+        if not same_bits(call_rate(m, fn, vals.copy(), L), ref[fn]):
+            chk.fail(("error_path", base, "later_results_differ_after_failed_calls"),
+                     dict(spec, what="error_path", fn=fn))
+    if obj_digest(m) != before:
+        chk.fail(("error_path", base, "object_changed_by_name_repr_or_rate_calls"), dict(spec, what="error_path"))
+    # falsy SNR values: all of them are 0 dB
+    for fn in RATE_FNS:
+        want = float(np.asarray(ref[fn])[1])
+        for name, z in (("int0", 0), ("0.0", 0.0), ("-0.0", -0.0), ("np.float64(-0.0)", np.float64(-0.0)),
+                        ("np.int64(0)", np.int64(0)), ("0d", np.array(0.0)), ("zeros(3)", np.zeros(3)),
+                        ("[-0.0,0.0]", np.array([-0.0, 0.0])), ("int zeros", np.zeros(2, dtype=int)),
+                        ("False", False)):
+            g = call_rate(m, fn, z, L)
+            chk.count("eval_falsy_calls")
+            if np.shape(g) != np.shape(z) or not np.all(np.asarray(g, dtype=float) == want):
+                chk.fail(("falsy_argument", base, "snr_zero"), dict(spec, what="falsy", fn=fn, snr=name),
+                         observed=g, expected=want)
+    # packet length 1 (in every integer type) is the BER itself; None and omitted are the same call
+    ber = np.asarray(ref["BER"], dtype=float)
+    K = math.log2(M)
+    for one in (1, np.int64(1), np.uint8(1), True, 1.0):
+        per1 = np.asarray(m.calcTheoreticalPER(vals.copy(), one), dtype=float)
+        se1 = np.asarray(m.calcTheoreticalSpectralEfficiency(vals.copy(), one), dtype=float)
+        chk.count("eval_falsy_calls", 2)
+        if np.any(np.abs(per1 - ber) > 4 * EPS) or np.any(np.abs(se1 - K * (1 - ber)) > 8 * EPS * K):
+            chk.fail(("falsy_argument", base, "packet_length_one"), dict(spec, what="falsy", packet_length=repr(one)),
+                     observed=per1, expected=ber)
+    if not same_bits(m.calcTheoreticalSpectralEfficiency(vals.copy(), None),
+                     m.calcTheoreticalSpectralEfficiency(vals.copy())):
+        chk.fail(("falsy_argument", base, "packet_length_None_vs_omitted"), dict(spec, what="falsy"))
+    chk.outcome("error_paths", (base, len(bad_calls)))
+
+
+def check_pairs(chk, tier):
+    """(2) several live objects used alternately with ONE shared SNR buffer rewritten between rounds,
+    every order of the calls; (3) QPSK against PSK(4, pi/4).  Each result must equal what the same object
+    returned when it was alone (before the sibling existed) - bit for bit - and the oracle of check_vector
+    must still hold for both afterwards."""
+    import itertools
+    pi = math.pi
+    specs = {"psk4": ("psk", 4, [["new", 0.0]]), "qam4": ("qam", 4, []), "psk16": ("psk", 16, [["new", 0.0]]),
+             "qam16": ("qam", 16, []), "psk64": ("psk", 64, [["new", pi / 7]]), "qam64": ("qam", 64, []),
+             "psk8a": ("psk", 8, [["new", 0.0]]), "psk8b": ("psk", 8, [["new", 1.0]]), "bpsk": ("bpsk", 2, []),
+             "qpsk": ("qpsk", 4, []), "psk4q": ("psk", 4, [["new", pi / 4]]), "psk2": ("psk", 2, [["new", 0.0]])}
+    pairs = [("psk4", "qam4"), ("psk16", "qam16"), ("psk64", "qam64"), ("psk8a", "psk8b"), ("bpsk", "qpsk"),
+             ("psk8a", "psk16"), ("qpsk", "psk4q"), ("bpsk", "psk2"), ("qam4", "qam16"), ("qam16", "qam64")]
+    contents = [np.array([-30.0 + 5.0 * i for i in range(16)]) + d for d in (0.0, 20.0, -7.5)]
+    L = 50
+    for na, nb in pairs:
+        for first, second in ((na, nb), (nb, na)):
+            case = {"kind": "pair", "objects": [first, second]}
+            with chk.guard(("pair",), case):
+                A = build(*specs[first])
+                alone = {(first, fn, c): call_rate(A, fn, contents[c].copy(), L) for fn in RATE_FNS for c in range(3)}
+                B = build(*specs[second])
+                loneB = build(*specs[second])
+                alone.update({(second, fn, c): call_rate(loneB, fn, contents[c].copy(), L)
+                              for fn in RATE_FNS for c in range(3)})
+                objs = {first: A, second: B}
+                dig = {first: obj_digest(A), second: obj_digest(B)}
+                buf = contents[0].copy()
+                rounds = 0
+                for fa, fb in (("SER", "BER"), ("PER", "SE"), ("SE0", "SER")):
+                    calls = [(first, fa), (second, fa), (first, fb), (second, fb)]
+                    for perm in itertools.permutations(calls):
+                        c = rounds % 3
+                        buf[:] = contents[c]                # same buffer object, new content
+                        rounds += 1
+                        for step, (nm, fn) in enumerate(list(perm) + list(perm)[:2]):
+                            g = call_rate(objs[nm], fn, buf, L)
+                            chk.count("eval_pair_calls")
+                            if not same_bits(g, alone[(nm, fn, c)]):
+                                w = alone[(nm, fn, c)]
+                                i = bad_index(np.asarray(g).ravel() != np.asarray(w).ravel()) \
+                                    if np.shape(g) == np.shape(w) else None
+                                chk.fail(("pair", "result_differs_from_lone_object"),
+                                         dict(case, sequence=[list(x) for x in perm], step=step, fn=fn, object=nm,
+                                              content=c, position=i),
+                                         observed=np.asarray(g).ravel()[:4] if i is None else float(np.asarray(g).ravel()[i]),
+                                         expected=np.asarray(w).ravel()[:4] if i is None else float(np.asarray(w).ravel()[i]))
+                                break
+                        else:
+                            continue
+                        break
+                for nm in (first, second):
+                    if obj_digest(objs[nm]) != dig[nm]:
+                        chk.fail(("pair", "object_changed_by_calls"), dict(case, object=nm))
+                    kind, M, hist = specs[nm]
+                    spec = {"kind": kind, "M": M, "history": hist, "pair": [first, second]}
+                    check_vector(chk, kind_label(kind, hist), objs[nm], geometry(np.asarray(objs[nm].symbols)),
+                                 contents[0] + 30.0, [1, L], spec, "1d")
+            chk.outcome("pairs", (first, second))
+    # (3) convenience subclass against the general constructor
+    case = {"kind": "pair", "objects": ["qpsk", "psk4q"], "what": "entry_points"}
+    with chk.guard(("pair", "entry_points"), case):
+        q, p = build(*specs["qpsk"]), build(*specs["psk4q"])
+        for fn in RATE_FNS:
+            for c in range(3):
+                if not same_bits(call_rate(q, fn, contents[c].copy(), L), call_rate(p, fn, contents[c].copy(), L)):
+                    chk.fail(("pair", "QPSK!=PSK(4,pi/4)", fn), dict(case, fn=fn, content=c))
+        # a PSK whose table is replaced through setConstellation() follows the new table's order
+        from pyphysim.modulators import fundamental as F
+        m = F.PSK(8)
+        m.setConstellation(np.asarray(F.PSK(16, 0.4).symbols).copy())
+        spec = {"kind": "psk", "M": 16, "history": [["new", 0.4]], "via": "PSK(8).setConstellation(PSK(16,0.4).symbols)"}
+        check_vector(chk, "psk", m, geometry(np.asarray(m.symbols)), contents[0] + 30.0, [1, L], spec, "1d")
+        ref16 = F.PSK(16, 0.4)
+        for fn in RATE_FNS:
+            if not same_bits(call_rate(m, fn, contents[1].copy(), L), call_rate(ref16, fn, contents[1].copy(), L)):
+                chk.fail(("pair", "setConstellation_table_not_followed", fn), dict(case, fn=fn))
+
+
 def check_object(chk, spec, tier):
     kind, M, hist = spec["kind"], spec["M"], spec["history"]
     lab = kind_label(kind, hist)
@@ -579,6 +732,8 @@ def check_object(chk, spec, tier):
             check_scalars(chk, lab, m, geo, grid[sel], Ls, spec, sub)
         with chk.guard(("call_sequence", base), dict(spec, what="call_sequence")):
             check_call_sequences(chk, lab, kind, M, hist, spec, tier)
+        with chk.guard(("error_path", base), dict(spec, what="error_path")):
+            check_error_paths_and_falsy(chk, lab, kind, M, hist, spec)
         with chk.guard(("snr_presentation", base), dict(spec, what="snr_presentation")):
             dm = geo["dmin"]
             check_snr_presentations(
@@ -697,6 +852,12 @@ def main(chk: Check):
                "int64..int8 arrays must give bit-identical results to the float64 C-contiguous array; float32 "
                "input is compared up to 64*2^-23*kappa relative + 8*2^-23*(L for PER/SE) absolute (the library then computes in single precision: 1-(1-x)**L cancels); "
                "Python lists are not legitimate SNR arguments (dB2Linear evaluates `list / 10.0`)")
+    chk.assume("error paths: SNR 'x' / None / list and packet length 'x' / None must raise and leave the whole "
+               "instance (every attribute, arrays by bytes) and later results unchanged; 0 dB as 0, 0.0, -0.0, "
+               "False, numpy zeros and packet length 1 in five numeric types are ordinary values")
+    chk.assume("pairs: 10 pairs of live objects (PSK/QAM of the same order, two PSKs, BPSK+QPSK, QPSK vs "
+               "PSK(4,pi/4), ...) in both construction orders share one SNR buffer rewritten between rounds; "
+               "every order of 4 calls x 3 function pairs, 6 calls deep, against the object's own lone results")
     chk.assume("scalar SNR arguments are compared with the array result of the same SNR (quick tier: every "
                "4th grid point for M > 16)")
 
@@ -706,6 +867,8 @@ def main(chk: Check):
             check_object(c, spec, c.tier)
         if i == 0:
             check_primitives(c, c.tier)
+        if i == n - 1:
+            check_pairs(c, c.tier)
 
     run_shards(chk, worker)
     chk.sample({"kind": "psk", "M": 8, "history": [["new", 0.0], ["set", 1.0]]})
@@ -713,12 +876,17 @@ def main(chk: Check):
     chk.require_outcomes("structure", 18)
     chk.require_outcomes("snr_presentation", 12)
     chk.require_outcomes("sequence_rounds", 3)
+    chk.require_outcomes("pairs", 20)
+    chk.require_outcomes("error_paths", 3)
     if chk.counters.get("nontrivial_rate_points", 0) < 1000:
         raise Broken("vacuous: only %d SNR points with a SER inside (1e-12, 0.999)"
                      % chk.counters.get("nontrivial_rate_points", 0))
 
 
 def replay(case, chk: Check):
+    if case.get("kind") == "pair" or "pair" in case or "via" in case:
+        check_pairs(chk, chk.tier)
+        return
     if case.get("kind") == "primitive":
         check_primitives(chk, chk.tier)
         return
